@@ -19,7 +19,7 @@ from fractions import Fraction as Fr
 from lib.rat import R, F, close, dev
 
 ID = "C01"
-QUICK_N = 700
+QUICK_N = 1500
 THOROUGH_N = 30000
 QUICK_BUDGET_S = 80
 THOROUGH_BUDGET_S = 900
@@ -463,6 +463,12 @@ def corpus():
     c.append(dict(claim="write", chart=chart))
     c.append(dict(claim="cycle", chart=chart))
     c.append(dict(claim="write", chart=dict(meta=dict(META_DEFAULT), bpms=[], svs=[], hits=[], holds=[])))
+    # two holds of one column whose quantized images can be paired in a wrong way (a greedy pairing in the "< 1 ms"
+    # check once raised a false alarm here; the pairing is an exact matching now)
+    hold = lambda o, l: dict(offset=o, column=3, hitsound_set=0, sample_set=0, addition_set=0, custom_set=0, volume=0,
+                             hitsound_file="x", length=l)
+    m2 = dict(META_DEFAULT); m2["circle_size"] = 14.0
+    c.append(dict(claim="write", chart=dict(meta=m2, bpms=[], svs=[], hits=[], holds=[hold(0.6, 0.0), hold(0.5, 1.0)])))
     return c
 
 
@@ -486,12 +492,64 @@ def valid(case):
         if cl == "line":
             return isinstance(case["s"], str) and isinstance(case["k"], int) and 1 <= case["k"] <= 18 and _text_ok([case["s"]])
         if cl in ("read", "badtext"):
-            return isinstance(case["lines"], list) and all(isinstance(l, str) for l in case["lines"]) and _text_ok(case["lines"])
+            if not (isinstance(case["lines"], list) and all(isinstance(l, str) for l in case["lines"]) and _text_ok(case["lines"])):
+                return False
+            return cl == "badtext" or dialect_ok(case["lines"])
         if cl in ("write", "cycle"):
             return _chart_ok(case["chart"])
         return False
     except Exception:
         return False
+
+
+REQ_HEADERS = ["[General]", "[Metadata]", "[Difficulty]", "[Events]", "[TimingPoints]", "[HitObjects]"]
+OPT_HEADERS = ["[Editor]", "[Colours]"]
+KV_HEADERS = ["[General]", "[Editor]", "[Metadata]", "[Difficulty]"]
+
+
+def dialect_ok(lines):
+    """the skeleton of a v14 mania file as osu! writes it: the required sections once each and in order, key lines
+    (with a colon) only inside the key/value sections, the two event markers inside [Events] with the quoted background
+    line right after the first and nothing but `Sample,` lines after the second.  The by-the-book denotation reads
+    sections by their headers and the reader under test scans for keys and markers; only on this skeleton do the two
+    have to coincide (shrunk replays stay inside it)."""
+    st = [l.strip() for l in lines]
+    heads = [l for l in st if l.startswith("[") and l.endswith("]")]
+    if [h for h in heads if h in REQ_HEADERS] != REQ_HEADERS:
+        return False
+    if any(h not in REQ_HEADERS + OPT_HEADERS for h in heads) or len(set(heads)) != len(heads):
+        return False
+    sec = None
+    bg_seen = smp_seen = False
+    for i, l in enumerate(st):
+        if l in heads:
+            sec = l
+            continue
+        if l == "":
+            continue
+        if sec is None:
+            if ":" in l:
+                return False
+            continue
+        if sec in KV_HEADERS:
+            if l.startswith("//") or ":" not in l:
+                return False
+        elif sec == "[Events]":
+            if l == "//Background and Video events":
+                if bg_seen or smp_seen or i + 1 >= len(st) or not st[i + 1].startswith('0,0,"') or st[i + 1].count('"') != 2:
+                    return False
+                bg_seen = True
+            elif l == "//Storyboard Sound Samples":
+                if smp_seen or not bg_seen:
+                    return False
+                smp_seen = True
+            elif smp_seen and not l.startswith("Sample,"):
+                return False
+            elif l.startswith("Sample") and not smp_seen:
+                return False
+            elif ":" in l and not l.startswith("Sample,"):
+                return False
+    return bg_seen and smp_seen
 
 
 def _text_ok(lines):
@@ -595,7 +653,7 @@ def _records(tl, fields):
     df = tl.df
     out = []
     for rec in df.to_dict("records"):
-        out.append({f: _py(rec[f]) for f in fields})
+        out.append({f: _py(rec.get(f, "<missing column>")) for f in fields})
     return out
 
 
@@ -682,7 +740,7 @@ NUMF = {"offset", "length", "bpm", "multiplier", "metronome"}
 
 
 def _key_impl(kind, r):
-    return tuple((f, (float(r[f]) + 0.0 if f in NUMF else r[f])) for f in EXACT_ROW[kind])
+    return tuple((f, (float(r[f]) + 0.0 if (f in NUMF and not isinstance(r[f], str)) else r[f])) for f in EXACT_ROW[kind])
 
 
 def _key_lean(kind, r):
@@ -707,6 +765,10 @@ def cmp_rows(c, kind, impl, lean, what):
     ok = True
     for k in bi:
         for f in NEAR_ROW[kind]:
+            if any(isinstance(r[f], str) for r in bi[k]):
+                c.why.append(f"{what}.{kind}.{f}: missing in the implementation's frame")
+                ok = False
+                continue
             a = sorted(float(r[f]) for r in bi[k])
             b = sorted((F(r[f]) for r in bl[k]))
             for x, y, r in zip(a, b, bi[k]):
@@ -886,18 +948,24 @@ def run_read(case, drv):
     m = drv.call("c01.read", lines=lines)
     sp = drv.call("c01.denote", lines=lines)
     wf = drv.call("c01.wf", lines=lines)["ok"]
+    stripped = [l.strip() for l in lines]
+    # a file of the dialect has both sections (the reader documents that it raises otherwise; the suite pins it)
+    dom = "ok" in sp and wf["timing"] and wf["objects"] and dialect_ok(lines)
     c, cs = Cmp(), Cmp()
     if impl[0] == "err":
         agree = m.get("err") == impl[1]
-        ok = not ("ok" in sp and wf["timing"] and wf["objects"])   # a text of the dialect must be readable
+        # a text of the dialect must be readable.  The by-the-book denotation skips lines it cannot place (a short
+        # `Sample,` event, a marker without a following line), so "of the dialect" also asks that the modelled reader
+        # accepts the text: where model and code raise the same class, the error branch is covered by (C) alone.
+        ok = not (dom and "ok" in m)
+        dom = dom and "ok" in m
         tags = ["impl-raises", impl[1]]
     else:
         agree = "ok" in m and cmp_chart(c, impl[1], m["ok"], "model")
         ok = True
-        if "ok" in sp and wf["timing"] and wf["objects"]:
+        if dom:
             ok = cmp_chart(cs, impl[1], sp["ok"], "spec")
         tags = ["ok"]
-    dom = "ok" in sp and wf["timing"] and wf["objects"]
     n = 0
     if impl[0] == "ok":
         n = len(impl[1]["hits"]) + len(impl[1]["holds"]) + len(impl[1]["bpms"]) + len(impl[1]["svs"])
@@ -1050,29 +1118,47 @@ def cmp_chart_q(c, impl, q, what):
 
 
 def moved_less_than_1ms(c, ch, back):
-    """every original note has a counterpart in the same column whose time(s) moved by less than 1 ms"""
+    """there is a one-to-one pairing of the original notes with the notes read back such that partners share the column
+    (and hitsound file / volume) and every time (hold: both ends) moved by less than 1 ms — exact bipartite matching
+    (Kuhn's augmenting paths) inside each (column, file, volume) bucket"""
+    import sys
+    sys.setrecursionlimit(max(10000, sys.getrecursionlimit()))
     ok = True
     for kind in ("hits", "holds"):
-        pool = {}
+        pool, orig = {}, {}
         for r in back[kind]:
             pool.setdefault((r["column"], r["hitsound_file"], r["volume"]), []).append(r)
         for h in ch[kind]:
-            cands = pool.get((h["column"], h["hitsound_file"], h["volume"]), [])
-            hit = None
-            for r in cands:
-                if abs(Fr(r["offset"]) - Fr(float(h["offset"]))) < 1:
-                    if kind == "holds":
-                        e0 = Fr(float(h["offset"])) + Fr(float(h["length"]))
-                        e1 = Fr(r["offset"]) + Fr(r["length"])
-                        if abs(e1 - e0) > 1 + Fr(1, 2 ** 30):
-                            continue
-                    hit = r
+            orig.setdefault((h["column"], h["hitsound_file"], h["volume"]), []).append(h)
+        for key, hs in orig.items():
+            rs = pool.get(key, [])
+
+            def compatible(h, r):
+                if abs(Fr(r["offset"]) - Fr(float(h["offset"]))) >= 1:
+                    return False
+                if kind == "holds":
+                    e0 = Fr(float(h["offset"])) + Fr(float(h["length"]))
+                    e1 = Fr(r["offset"]) + Fr(r["length"])
+                    if abs(e1 - e0) >= 1 + Fr(1, 2 ** 30):
+                        return False
+                return True
+            adj = [[j for j, r in enumerate(rs) if compatible(h, r)] for h in hs]
+            match_r = [-1] * len(rs)
+
+            def try_aug(i, seen):
+                for j in adj[i]:
+                    if j in seen:
+                        continue
+                    seen.add(j)
+                    if match_r[j] < 0 or try_aug(match_r[j], seen):
+                        match_r[j] = i
+                        return True
+                return False
+            for i, h in enumerate(hs):
+                if not try_aug(i, set()):
+                    c.why.append(f"{kind}: no counterpart within 1 ms for {h}")
+                    ok = False
                     break
-            if hit is None:
-                c.why.append(f"{kind}: no counterpart within 1 ms for {h}")
-                ok = False
-            else:
-                cands.remove(hit)
     return ok
 
 
